@@ -510,7 +510,7 @@ func (f *Frame) runDefers(in *ssa.RunDefers, st *State, reach Term) {
 		for k := range st.heap {
 			keys[k] = true
 		}
-		if alt.epoch != st.epoch {
+		if alt.epoch != st.epoch || alt.gepoch != st.gepoch {
 			for k := range c.compSort {
 				keys[k] = true
 			}
@@ -526,6 +526,9 @@ func (f *Frame) runDefers(in *ssa.RunDefers, st *State, reach Term) {
 		}
 		if alt.epoch > st.epoch {
 			st.epoch = alt.epoch
+		}
+		if alt.gepoch > st.gepoch {
+			st.gepoch = alt.gepoch
 		}
 		st.heap = merged
 		st.alloc = c.define("alloc_d", tIte(flag, alt.alloc, st.alloc))
@@ -667,12 +670,24 @@ func (f *Frame) loopBases(blocks map[*ssa.BasicBlock]bool) map[string]*compBases
 			return blocks[x.Block()]
 		case *ssa.MakeSlice:
 			return blocks[x.Block()]
+		case *ssa.Call:
+			// a callee whose contract promises fresh(result)
+			if !blocks[x.Block()] {
+				return false
+			}
+			if p := f.resolve(x); p.kind == "contract" && p.fc != nil {
+				for _, en := range p.fc.Ensures {
+					if strings.Contains(en.Src, "fresh(result)") {
+						return true
+					}
+				}
+			}
 		}
 		return false
 	}
 	addBase := func(k string, root ssa.Value, elem bool) {
 		cb := get(k)
-		if strings.HasPrefix(k, "G|") || strings.HasPrefix(k, "X|") || strings.HasPrefix(k, "D|") {
+		if strings.HasPrefix(k, "G|") || strings.HasPrefix(k, "D|") || (strings.HasPrefix(k, "X|") && !c.refKeyedGhost[k]) {
 			cb.unknown = true
 			return
 		}
@@ -771,6 +786,18 @@ func (f *Frame) loopBases(blocks map[*ssa.BasicBlock]bool) map[string]*compBases
 								}
 							}
 						}
+						// ghost attribute of an argument object: g(argN)
+						if t.obj == nil && len(t.keys) == 1 && c.refKeyedGhost[t.comp] {
+							for i, n := range names {
+								if t.keys[0].S == n && i < len(args) {
+									addBase(t.comp, args[i], false)
+									idx = -2
+								}
+							}
+						}
+						if idx == -2 {
+							continue
+						}
 						if idx >= 0 && idx < len(args) {
 							addBase(t.comp, args[idx], strings.HasPrefix(t.obj.S, "(sl_arr "))
 						} else {
@@ -795,7 +822,9 @@ func (f *Frame) loopBases(blocks map[*ssa.BasicBlock]bool) map[string]*compBases
 					fr := c.newFrameShape(p.fn, f)
 					cs, _ := fr.writeSet(nil)
 					for k := range cs {
-						get(k).unknown = true
+						if k != "*heap" {
+							get(k).unknown = true
+						}
 					}
 				}
 			}
